@@ -83,6 +83,22 @@ def gen_c15facts():
     if 'pushRow' in inner or len(re.findall(r'pushRow', body)) != 2:
         raise E.ExtractError(FLP + ': Global::makeResult has an unknown shape')
     rows.append(('flpJoinsFinals', 'Bool', 'true', FLP, ln, 'FactoredLP makeResult pushes one row per side for the sum of all final factors'))
+    # FactoredLP: does operator() delegate (no basis, constant requested) to (one all-ones basis, no constant)?  (fixes/C15-4)
+    src = E.strip_comments(E.read(FLP))
+    guard = r'if\s*\(\s*addConstantBasis\s*&&\s*C\.bases\.empty\(\)\s*\)\s*\{'
+    ln = 0
+    if re.search(guard, src):
+        inner, ln = _body(src, guard, FLP + ' empty-basis guard')
+        flat = re.sub(r'\s+', ' ', inner)
+        if not (re.search(r'return \(\*this\)\( ?\w+, b, false ?\)', flat) and re.search(r'Ones\( ?S\[0\] ?\)', flat) and re.search(r'\{ ?\{ ?0 ?\}', flat)):
+            raise E.ExtractError(FLP + ': the empty-basis guard of operator() has an unknown shape: ' + flat[:160])
+        deleg = True
+    else:
+        if re.search(r'C\.bases\.empty\(\)', src):
+            raise E.ExtractError(FLP + ': operator() tests C.bases.empty() in an unknown way')
+        deleg = False
+    rows.append(('flpEmptyConstDelegates', 'Bool', 'true' if deleg else 'false', FLP, ln,
+                 'operator() solves (no basis, constant requested) as (one all-ones basis over factor 0, no constant)'))
     # zero entries are skipped in the three MDP setup loops
     src = E.strip_comments(E.read(MLP))
     k = len(re.findall(r'if\s*\(\s*checkEqualSmall\s*\([^;{}]*,\s*0\.0\s*\)\s*\)\s*continue\s*;', src))
